@@ -678,8 +678,18 @@ def judge_case(d, seed=0):
                     bad.append(f"C07 replication: weights {reps}: {ra}; repeated rows: {rb}")
                     break
     # --- C07 strictly increasing relabelling: discrimination and uncertainty
+    # Forecasts that differ by less than 1e-9 relative are "numerically tied": whether an isotonic regression
+    # treats them as a tie is decided at rounding level (scikit-learn pools X values closer than 1e-15), and the
+    # decomposition is discontinuous at ties, so the relabelling relation is not judged there (DESIGN.md 5.4).
+    def near_tied(c):
+        s_ = sorted(set(c))
+        return any(b - a <= 1e-9 * max(1.0, abs(a), abs(b)) for a, b in zip(s_, s_[1:]))
     for nm, fn in (("2x+1", lambda v: 2 * v + 1), ("x^3", lambda v: v ** 3), ("exp", math.exp)):
+        if any(near_tied(c) for c in cols):
+            break
         tc = [[fn(v) for v in c] for c in cols]
+        if any(near_tied(c) for c in tc):
+            continue
         keep = all(all((a < b) == (fa < fb) and (a == b) == (fa == fb) for a, fa in zip(c, t) for b, fb in zip(c, t))
                    for c, t in zip(cols, tc))
         if not keep:
